@@ -2024,3 +2024,76 @@ def s_resolve( ctx ):
                 res.bad( src, c, '%s: %s is not inside a status-converting try' % ( qn, norm_text( c )[:60] ),
                          'when the path does not resolve (e.g. an unknown tag) the standalone request fails as a whole (exception -> encapsulation status 0x08, session ends) while the same request as a bundle member gets CIP status 0x05', func=qn )
     return res
+
+
+# ---------------------------------------------------------------------------------------- C03: T-SYMBOL (key discipline of the tag symbol table and the object directory)
+
+@rule( 'T-SYMBOL', props=( 'C03', ), floor=5 )
+def t_symbol( ctx ):
+    """every access to the tag symbol table uses a key made by canonicalize_tag (case-insensitive tags), and writer and reader of the object directory build the same 'class.instance.attribute' key"""
+    res = Result( 'T-SYMBOL' )
+    src = ctx.src( DEVICE )
+    n = 0
+    for fn in [ f for f in src.tree.body if isinstance( f, ast.FunctionDef ) ]:
+        ld = LocalDefs( fn )
+        for node in ast.walk( fn ):
+            key = None
+            if isinstance( node, ast.Subscript ) and dotted( node.value ) == 'symbol':
+                key = node.slice
+            elif isinstance( node, ast.Call ) and call_name( node ) in ( 'symbol.get', 'symbol.pop', 'symbol.setdefault' ) and node.args:
+                key = node.args[0]
+            elif isinstance( node, ast.Compare ) and len( node.ops ) == 1 and isinstance( node.ops[0], ( ast.In, ast.NotIn )) and dotted( node.comparators[0] ) == 'symbol':
+                key = node.left
+            if key is None:
+                continue
+            n += 1
+            ok = is_call_to( key, 'canonicalize_tag' ) or ( isinstance( key, ast.Name ) and ld.defs.get( key.id ) and all( is_call_to( d, 'canonicalize_tag' ) for d in ld.defs[key.id] ))
+            if ok:
+                res.ok( src, node, '%s: symbol key %s comes from canonicalize_tag' % ( fn.name, txt( key )))
+            else:
+                res.bad( src, node, '%s: symbol accessed with key %s' % ( fn.name, norm_text( key )), 'tag names are case-insensitive: every store and lookup must use the canonicalize_tag( tag ) key, else a tag written under one spelling is not found under another' )
+    ct = src.get( 'canonicalize_tag' )
+    if pfind( ct, '_c = tag.lower()' ) and [ r for r in ast.walk( ct ) if isinstance( r, ast.Return ) and isinstance( r.value, ast.Name ) ]:
+        res.ok( src, ct, 'canonicalize_tag lower-cases the tag' )
+    else:
+        res.bad( src, ct, 'canonicalize_tag', 'the canonical form of a tag is its lower-case spelling' )
+    if n < 4:
+        raise AnalysisError( 'T-SYMBOL: symbol table accesses not found (%d)' % n )
+    # directory keys
+    # directory keys, decided by evaluating the key expressions on sample ids (any equivalent formatting passes)
+    dp = src.get( '__directory_path' )
+    r = [ x for x in ast.walk( dp ) if isinstance( x, ast.Return ) ]
+    if not r:
+        raise AnalysisError( '__directory_path: no return' )
+    try:
+        got = [ fold( r[0].value, { 'class_id': 5, 'instance_id': 7, 'attribute_id': a } ) for a in ( None, 3, 12 ) ]
+    except NoFold as exc:
+        raise AnalysisError( '__directory_path key expression outside the modelled subset: %s' % exc )
+    if got == [ '5.7.0', '5.7.3', '5.7.12' ]:
+        res.ok( src, r[0], "lookup key = 'class.instance.attribute' (attribute 0 = the Object itself): %s" % got )
+    else:
+        res.bad( src, r[0], r[0].value, "the directory key for class 5, instance 7, attribute None/3/12 must be '5.7.0'/'5.7.3'/'5.7.12', got %s" % got )
+    oi = src.get( 'Object.__init__' )
+    sd = [ c for c in ast.walk( oi ) if is_call_to( c, 'directory.setdefault' ) and c.args ]
+    okreg = False
+    if sd:
+        try:
+            okreg = fold( sd[0].args[0], { 'self.class_id': 5, 'instance_id': 7, 'self.instance_id': 7 } ) == '5.7'
+        except NoFold as exc:
+            raise AnalysisError( 'Object.__init__ directory key outside the modelled subset: %s' % exc )
+    if okreg and pfind( oi, "self.attribute['0'] = self" ):
+        res.ok( src, oi, "Object registers itself at directory['class.instance']['0'], attributes at [str( id )]" )
+    else:
+        res.bad( src, sd[0] if sd else oi, sd[0] if sd else 'Object.__init__ directory registration', "an Object must register at directory['<class>.<instance>'] with itself under '0' (the key lookup() reads)" )
+    lk = src.get( 'lookup' )
+    if pfind( lk, 'directory.get( key, None )' ) and pfind( lk, '__directory_path( class_id=class_id, instance_id=instance_id, attribute_id=attribute_id )' ):
+        res.ok( src, lk, 'lookup reads directory.get( __directory_path( ... ))' )
+    else:
+        res.bad( src, lk, 'lookup', 'lookup must read the directory under the __directory_path key' )
+    # resolve_element: the first element segment, default ( 0, )
+    re_ = src.get( 'resolve_element' )
+    if pfind( re_, "element.append( term['element'] )" ) and pfind( re_, 'tuple( element ) if element else ( 0, )' ):
+        res.ok( src, re_, 'resolve_element: the path\'s element segment, default element 0' )
+    else:
+        res.bad( src, re_, 'resolve_element', 'the element index is the path\'s element segment, defaulting to 0' )
+    return res
